@@ -146,14 +146,14 @@ func (p *perturber) point() {
 
 func newLog(p *perturber) logutil.Log { return &plog{p} }
 
-func (l *plog) WithComponent(string) logutil.Log              { return l }
-func (l *plog) Trace(string, ...interface{}) string            { return "" }
-func (l *plog) Un(string)                                      {}
-func (l *plog) Debugf(string, ...interface{})                  { l.perturb.point() }
-func (l *plog) Infof(string, ...interface{})                   { l.perturb.point() }
-func (l *plog) Warnf(string, ...interface{})                   { l.perturb.point() }
-func (l *plog) Errorf(string, ...interface{})                  { l.perturb.point() }
-func (l *plog) Fatalf(f string, a ...interface{})              { panic(fmt.Sprintf(f, a...)) }
+func (l *plog) WithComponent(string) logutil.Log                   { return l }
+func (l *plog) Trace(string, ...interface{}) string                { return "" }
+func (l *plog) Un(string)                                          {}
+func (l *plog) Debugf(string, ...interface{})                      { l.perturb.point() }
+func (l *plog) Infof(string, ...interface{})                       { l.perturb.point() }
+func (l *plog) Warnf(string, ...interface{})                       { l.perturb.point() }
+func (l *plog) Errorf(string, ...interface{})                      { l.perturb.point() }
+func (l *plog) Fatalf(f string, a ...interface{})                  { panic(fmt.Sprintf(f, a...)) }
 func (l *plog) ErrWarn(e error, _ string, _ ...interface{}) error  { l.perturb.point(); return e }
 func (l *plog) ErrFatal(e error, _ string, _ ...interface{}) error { panic(e) }
 func (l *plog) Err(e error, _ string, _ ...interface{}) error      { l.perturb.point(); return e }
